@@ -60,7 +60,8 @@ def table_arrays(tbl):
 def stream_id_universe(tbl):
     """Stream ids the source can serve: data columns plus the axis columns z / lat / lon."""
     nm = axis_names(tbl)
-    return set(tbl["cols"]) | {nm[ax] for ax in ("z", "lat", "lon") if tbl.get(ax) is not None}
+    side = {tbl["side"]["name"]} if tbl.get("side") else set()
+    return set(tbl["cols"]) | {nm[ax] for ax in ("z", "lat", "lon") if tbl.get(ax) is not None} | side
 
 
 def make_index(tbl, n):
@@ -121,6 +122,9 @@ def make_xr(tbl):
             dv[nm[ax]] = (tn, a[ax].copy())
     if a["time"] is None:
         return xr.Dataset(OrderedDict((k, ("obs", v[1])) for k, v in dv.items()))
+    if tbl.get("side"):
+        # a variable on a dimension of its own (another length, no time / depth / position coordinate)
+        dv[tbl["side"]["name"]] = ("obs2", col(tbl["side"]["values"]))
     if tbl.get("xr_time", "coord") == "coord":
         return xr.Dataset(dv, coords={tn: a["time"].copy()})
     # time is a plain data variable on an anonymous dimension
